@@ -5,7 +5,9 @@
  micro codec (MicroMessage.c), message.py; MessageIOGateway, MiniMessageGateway.c, MicroMessageGateway.c, message_transceiver_thread.py.
  1. spec -> code: TLC enumerates the vectors of the common repertoire (WireVec.tla: every kind x 1..3 items, every ordered pair of fields
     in both orders, nesting 1..3, sub-Message arrays, odd names) with their bytes and with Common(python / pynative, m); harness/wire.cpp
-    builds each one through the C++ API (bytes = specification bytes), has the same bytes parsed and re-serialised by the mini codec, the
+    builds each one through the C++ API - by a script that leaves the content but is NOT append-only for 5 of 6 variants (WireAbs.DetourOf:
+    prepend onto the rest, first in first out, overwrite by Replace, shrink to one item and regrow; the item arrays get rotated, wrapped and
+    regrown) - (bytes = specification bytes of the content), has the same bytes parsed and re-serialised by the mini codec, the
     micro codec (reader -> writer) and message.py, has each of them build the same content natively (MMPut* / UMAdd* / Put*), and has C++
     accept what they produce.  The C codecs are two separate helper programs (they define the same symbols), Python one long-lived process.
  2. code -> spec: seeded random contents (dozens of items, nesting <= 3, NaN patterns, non-UTF-8 strings, arbitrary raw type codes) go
@@ -86,6 +88,7 @@ def run(v, tier, seed):
         if summ.get("aborted"): return
         with lock:
             tot["vectors"] += summ["vectors"]; tot["comparisons"] += summ["comparisons"]; tot["frames"] += summ["frame_batches"]; tot["distinct"] += summ["distinct_encodings"]; tot["restarts"] += summ["helper_restarts"]
+            tot["detour"] = tot.get("detour", 0) + summ["built_by_a_detour"]
             for k in range(6): tot["asked"][k] += summ["asked"][k]; tot["outside"][k] += summ["outside_repertoire"][k]
             samples.append({"kind": "vector enumerated by TLC", "vector": vec[len(vec) // 3]})
             samples.append({"kind": "vector outside the repertoire of message.py", "vector": next((x for x in vec if not x["py"]), None)})
@@ -189,13 +192,16 @@ def run(v, tier, seed):
     notes["random"] = rnd
     if not v.violations:
         # vacuity guards: every leg was really asked, inside and outside the repertoire of message.py, and TLC saw lines where Common(python) holds
+        if tot.get("detour", 0) == 0: raise vlib.MachineryError("vacuity guard: no TLC vector was built through a script that is not append-only")
         if min(tot["asked"]) == 0 or tot["outside"][4] == 0: raise vlib.MachineryError("vacuity guard: legs asked %s, outside the repertoire %s" % (tot["asked"], tot["outside"]))
         if tot["pyok"] == 0 or tot["pynative"] == 0: raise vlib.MachineryError("vacuity guard: no recorded line inside the repertoire of message.py")
         if min(rnd["agree"].values()) == 0: raise vlib.MachineryError("vacuity guard: an implementation never agreed on a random content: %s" % rnd)
         if tot["restarts"]: raise vlib.MachineryError("a helper process died without a violation being recorded")
     programs = 8 if (notes["python_transceiver"] or {}).get("sent") else 7
     cov = {"programs": programs, "disagreements_checked": tot["comparisons"] + tot["tlc_lines"],
-           "vectors": tot["vectors"], "vectors_enumerated_by_tlc": tot["states"], "random_vectors": rnd["vectors"], "frame_batches": tot["frames"],
+           "vectors": tot["vectors"], "vectors_enumerated_by_tlc": tot["states"], "tlc_vectors_built_by_a_script_that_is_not_append_only": tot.get("detour", 0),
+           "construction": "the C++ Message of every vector is built by an API script that leaves the vector's content (TLC vectors: WireAbs.DetourOf, 6 variants - append, prepend onto the rest, first-in-first-out behind junk, "
+                           "junk overwritten by Replace, shrink to one item and regrow, prepends only; random contents: a random variant per field, the script is logged and TLC checks Build(script) = content); the other implementations build from the content", "random_vectors": rnd["vectors"], "frame_batches": tot["frames"],
            "byte_string_comparisons_in_the_harness": tot["comparisons"], "recorded_lines_validated_by_tlc": tot["tlc_lines"],
            "legs_asked_on_tlc_vectors": dict(zip(KEYS, tot["asked"])), "legs_outside_the_repertoire_on_tlc_vectors": dict(zip(KEYS, tot["outside"])),
            "recorded_lines_inside_python_repertoire": tot["pyok"], "recorded_lines_inside_python_native_repertoire": tot["pynative"],
